@@ -39,6 +39,8 @@ func (o op) String() string {
 		return fmt.Sprintf("E(%s@%d)", o.key, o.due)
 	case 'D':
 		return "D(" + o.key + ")"
+	case 'M':
+		return fmt.Sprintf("M(%s@%d)", o.key, o.due)
 	case 'W':
 		return fmt.Sprintf("W(%d)", o.due)
 	}
@@ -86,6 +88,7 @@ func mkExec(scripts [][]op, epoch time.Time, timeline bool) *mc.Exec {
 	m := &monitor{}
 	var p *queue.Processor[string, *item]
 	byID := map[int]*rec{}
+	objs := map[string]*item{} // the object last enqueued under a key ('M' hands the same object in again)
 	body := func() {
 		p = queue.NewProcessor[string, *item](func(it *item) {
 			r := byID[it.id]
@@ -104,7 +107,7 @@ func mkExec(scripts [][]op, epoch time.Time, timeline bool) *mc.Exec {
 				defer wg.Done()
 				for _, o := range sc {
 					switch o.kind {
-					case 'E':
+					case 'E', 'M':
 						r := &rec{id: len(m.items), key: o.key, due: tenth(o.due), client: ci}
 						m.items = append(m.items, r)
 						byID[r.id] = r
@@ -116,7 +119,16 @@ func mkExec(scripts [][]op, epoch time.Time, timeline bool) *mc.Exec {
 							r.due = farFuture.Sub(epoch)
 							r.never = true
 						}
-						p.Enqueue(&item{key: o.key, due: when, id: r.id})
+						obj := &item{key: o.key, due: when, id: r.id}
+						if old := objs[o.key]; o.kind == 'M' && old != nil && old.due.Sub(epoch) > mc.ModelNow()+time.Millisecond {
+							// the caller re-schedules its own object: same pointer, new time
+							// (only while the object is not about to be looked at by the loop:
+							// changing it then would be the caller's data race)
+							old.due, old.id = when, r.id
+							obj = old
+						}
+						objs[o.key] = obj
+						p.Enqueue(obj)
 						r.enqEnd = mc.Step()
 						r.enqEndAt = mc.ModelNow()
 					case 'D':
@@ -291,7 +303,7 @@ func scenarios() []hx.Scenario {
 		hasE := false
 		for _, s := range scripts {
 			for _, o := range s {
-				if o.kind == 'E' {
+				if o.kind == 'E' || o.kind == 'M' {
 					hasE = true
 				}
 			}
@@ -348,6 +360,17 @@ func scenarios() []hx.Scenario {
 			add([][]op{s1, s2}, len(s1) > 1, mc.TimerGo123, nil, "tl:sub:")
 			if len(s1) == 1 {
 				add([][]op{s1, s2}, false, mc.TimerGo123, nil, "sub:")
+			}
+		}
+	}
+	// the caller re-schedules an object it enqueued before: the same pointer is
+	// handed in again with another time (one client, timeline mode)
+	same := []op{{'E', "a", 20}, {'E', "b", 30}, {'M', "a", 40}, {'M', "a", 15}, {'M', "b", 25}, {'W', "", 5}}
+	for _, a := range same {
+		for _, b := range same {
+			add([][]op{{a, b}}, false, mc.TimerGo123, nil, "tl:same:")
+			for _, c := range same {
+				add([][]op{{a, b, c}}, false, mc.TimerGo123, nil, "tl:same:")
 			}
 		}
 	}
